@@ -39,4 +39,11 @@ func init() {
 		Real:        append([]string{"value.ChannelOfValue and views", "value.Mutex / RWMutex / WaitGroup / Once", "vm select (opSelect, reflect.Select determinised)", "vm go threads"}, realAll...),
 		Stub:        stubAll,
 	}
+	engineTable["C33"] = engineInfo{
+		Engine:      "C33",
+		Rule:        "case = non-terminating program shape (33 shapes: loop / while / until / for over endless ranges, iterators, generators and channels, mutual and self tail recursion, labelled nested loops, loops in methods, closures, native map callbacks, do/finally, defer, inner catch, blocking channel pop/push/for-in, select with no ready case, await in a loop, plus the context-less await/wait/lock) compiled with AdditionalAbortChecks as the REPL does, run in the main thread or in a go thread behind a blocked or spinning main thread, after 0-3 terminating prologue fragments x cancel instant (scheduler tick, log-uniform 1..65535, delivered immediately when every task is blocked) x one schedule (fair round-robin from the cancel on). Oracle: within 600000 ticks after the cancel the main thread ends with ExecutionAbortedError without running past the construct, and every go thread ends; steplimit = runs on, deadlock = hangs. Non-trivial: the cancel was delivered; distinct: hash of (source, cancel tick, schedule trace)",
+		Assumptions: append([]string{"starvation schedules are excluded: prompt termination is only promised under a fair scheduler"}, commonAssumptions...),
+		Real:        append([]string{"CHECK_ABORT emission (AdditionalAbortChecks)", "opCheckAbort", "context-aware channel operations", "value.Aborter"}, realAll...),
+		Stub:        append([]string{"SIGINT handling and the REPL's 5 s watchdog (the cancel func is called directly)"}, stubAll...),
+	}
 }
